@@ -63,10 +63,21 @@ pub fn id_ee_cert(pki: &Pki, subject_key: &str, sig_key: &str, issuer_name_key: 
     der::seq(&[tbs, alg_x509(), der::bitstring(0, &sig)])
 }
 
+/// encoding shape of the revoked-certificate entries: 0 = DER, 1 = non-minimal long-form length, 2 = indefinite length (BER only)
+pub static CRL_ENTRY_SHAPE: std::sync::atomic::AtomicUsize = std::sync::atomic::AtomicUsize::new(0);
+fn shaped_seq(parts: &[Vec<u8>]) -> Vec<u8> {
+    let content = parts.concat();
+    match CRL_ENTRY_SHAPE.load(std::sync::atomic::Ordering::SeqCst) {
+        1 => { let mut v = vec![0x30, 0x81, content.len() as u8]; v.extend(content); v }
+        2 => { let mut v = vec![0x30, 0x80]; v.extend(content); v.extend([0, 0]); v }
+        _ => der::seq(parts),
+    }
+}
+
 pub fn id_crl(pki: &Pki, sig_key: &str, issuer_name_key: &str, this: Time, next: Time, aki: Option<&str>, revoked: &[u64]) -> Vec<u8> {
     let mut parts = vec![der::uint(1), alg_x509(), name_of(pki, issuer_name_key), utc(this), utc(next)];
     if !revoked.is_empty() {
-        let entries: Vec<Vec<u8>> = revoked.iter().map(|s| der::seq(&[der::uint(*s as u128), utc(this)])).collect();
+        let entries: Vec<Vec<u8>> = revoked.iter().map(|s| shaped_seq(&[der::uint(*s as u128), utc(this)])).collect();
         parts.push(der::seq(&entries));
     }
     let mut exts = Vec::new();
